@@ -40,6 +40,8 @@ filtered out of a run must have no-op pack / unpack; runs regrouped through a ma
 by member under a test other than "same endianness"; the annotate option may be decided at use time.
 Round 8: a single-pass generator flushes its pending run before any other block; constant
 sub-templates are spliced into the driver templates; options kept in another form have no verdict.
+Round 9: the name a field is listed under is the attribute it reads and writes (C17 b'); the
+run-partition rule states its vocabulary and gives no verdict outside it.
 """
 import ast
 
@@ -1192,8 +1194,14 @@ def check_primitive_siblings(ctx):
     from . import c05
     repo = ctx.repo
     c05.check_codecs(ctx, repo.cls('Int'))
+    # Round 9: ... and the field loop accepts every value the struct code of the run accepts
+    ici = repo.cls('Int')
+    if ici.methods.get('_compile') is not None:
+        c05.check_generic_range_is_codec_range(ctx, ici, ici.methods['_compile'], rule='R2-generic-sibling-strict')
     dci = repo.cls('Data')
     dc = dci.methods.get('_compile')
+    if dc is None:
+        raise Undecided('anchor Data._compile not found')
     seen = False
     done = set()
     for p in repo.walker(max_paths=ctx.max_paths, inline_depth=ctx.depth, keep={'_compile_impl'}).paths(dc.node, cls=dci):
